@@ -509,3 +509,288 @@ _reregister(_c08.SendReportSync, 'C19.notification_posted_with_relative_path_syn
 _reregister(_c08.SendReportAsync, 'C19.notification_posted_with_relative_path_async')
 _reregister(_c08.SendEndMessage, 'C19.end_message_posted_with_relative_path_sync')
 _reregister(_c08.SendEndMessageAsync, 'C19.end_message_posted_with_relative_path_async')
+
+
+# --------------------------------------------------------------------------------------------------------------------
+# consumer side: NotifyTo / EndTo.  The chain is
+#   _start_event_sink (own http server gets the TLS server context iff is_ssl_connection)      C19.consumer_event_sink
+#   HttpServerThreadBase.run (base_url https iff context)                                       C19.http_server_scheme
+#   SdcConsumer.base_url (keeps the scheme of the server's base_url)                            C19.consumer_base_url
+#   start_all hands base_url - and nothing else - to the subscription manager                   C19.consumer_addresses_frame
+#   manager.__init__ / mk_subscription (both managers) only append to it                        C19.consumer_subscription_*
+#   ConsumerSubscription.__init__/subscribe place exactly these strings in NotifyTo / EndTo     C19.consumer_addresses_frame
+CS = 'sdc11073.consumer.subscription'
+
+
+@register
+class ConsumerEventSink(FnCheck):
+    id = 'C19.consumer_event_sink'
+    prop = 'C19'
+    opaque_ok = True
+    target = f'{CI}:SdcConsumer._start_event_sink'
+    optional_fields = ('_ssl_context_container',)
+    doc = ('_start_event_sink without a shared server: the consumer\'s own http server (which receives the notifications '
+           'and whose base_url becomes NotifyTo / EndTo) is created with the TLS SERVER context of the container whenever '
+           'is_ssl_connection is true - in particular always when TLS is enforced; it is the server that is started and '
+           'stored in _http_server')
+
+    def setup(self, b):
+        self.mode = b.any('is_ssl_connection', maybe_none=True)
+        b.st.assume(z3.Or(Val.is_none(self.mode.e), Val.is_bool(self.mode.e)))
+        self.sc = b.obj('server_context', cls='SSLContext')
+        self.cc = b.obj('client_context', cls='SSLContext')
+        b.st.assume(self.sc.e != self.cc.e)
+        cont = b.obj('container', cls='SSLContextContainer', client_context=self.cc, server_context=self.sc)
+        self.o = b.obj('self', cls=(CI, 'SdcConsumer'), is_ssl_connection=self.mode, _ssl_context_container=cont,
+                       consumer_ip_address=b.str('ip'), _is_internal_http_server=b.bool('internal0'))
+        b.st.ghost['servers'] = ()
+        return self.o, [NONE], {}
+
+    def callees(self, ex):
+        def server(ex_, st, args, kwargs):
+            o = st.alloc('HttpServerThreadBase')
+            ctx = args[1] if len(args) > 1 else kwargs.get('ssl_context', NONE)
+            st.ghost['servers'] = st.ghost['servers'] + ((o.e, st.box(ctx)),)
+            st.write_field(o, 'base_url', vstr(fresh(StrS, 'server_base_url')))
+            st.write_field(o, 'started_evt', st.alloc('Event'))
+            st.write_field(o, 'dispatcher', st.alloc('Dispatcher'))
+            return o
+
+        def start(ex_, st, args, kwargs):
+            return NONE
+        return {f'{HS}:HttpServerThreadBase': Pure(server, name='HttpServerThreadBase(ip, ssl_context, ...)'),
+                '*.start': Pure(start, name='Thread.start'),
+                '*.wait': Pure(lambda e, s, a, k: vbool(fresh(BoolS, 'started')), name='Event.wait (either result)'),
+                '*.register_instance': Pure(lambda e, s, a, k: NONE, name='dispatcher.register_instance'),
+                f'{CI}:SdcConsumer.path_prefix': Pure(lambda e, s, a, k: vstr(fresh(StrS, 'prefix')), name='path_prefix property'),
+                'sdc11073.loghelper:get_logger_adapter': Pure(lambda e, s, a, k: s.alloc('Logger'), name='get_logger_adapter')}
+
+    def post(self, ex, st0, st, outcome, b):
+        servers = st.ghost['servers']
+        ex.oblige(st, 'one_own_server_created', z3.BoolVal(len(servers) == 1))
+        if len(servers) != 1:
+            return
+        srv, ctx = servers[0]
+        forced = z3.And(Val.is_bool(self.mode.e), Val.b(self.mode.e))
+        ex.oblige(st, 'enforced_tls_server_gets_the_tls_server_context', z3.Implies(forced, ctx == Val.ref(self.sc.e)))
+        ex.oblige(st, 'server_context_is_never_the_client_context', ctx != Val.ref(self.cc.e))
+        ex.oblige(st, 'context_is_the_server_context_or_none', z3.Or(ctx == Val.ref(self.sc.e), ctx == Val.none))
+        if outcome[0] == 'ret':
+            ex.oblige(st, 'the_created_server_is_the_event_sink', field(st, self.o, '_http_server') == Val.ref(srv))
+
+
+def _scheme_axioms(st, url, scheme):
+    """urlparse(url).scheme for a url that starts with one of the two schemes the http server produces."""
+    st.assume(z3.Implies(z3.PrefixOf(z3.StringVal('https://'), url), scheme == z3.StringVal('https')))
+    st.assume(z3.Implies(z3.PrefixOf(z3.StringVal('http://'), url), scheme == z3.StringVal('http')))
+
+
+@register
+class ConsumerBaseUrl(FnCheck):
+    id = 'C19.consumer_base_url'
+    prop = 'C19'
+    target = f'{CI}:SdcConsumer.base_url'
+    optional_fields = ('_alternative_hostname',)
+    cvc5_first = True
+    doc = ('SdcConsumer.base_url (the root of every NotifyTo / EndTo address): it starts with "https://" whenever the '
+           'base_url of the consumer\'s http server does, for every host name / alternative host name / path prefix')
+    trusted = ('urllib.parse.urlparse(u).scheme is "https" / "http" for u starting with "https://" / "http://" '
+               '(validated on sampled urls by C19.urlparse_scheme [B])',)
+
+    def setup(self, b):
+        self.server_url = b.str('server_base_url')
+        srv = b.obj('http_server', base_url=self.server_url)
+        alt = b.any('alt', maybe_none=True)
+        b.st.assume(z3.Or(Val.is_none(alt.e), Val.is_str(alt.e)))
+        self.o = b.obj('self', cls=(CI, 'SdcConsumer'), _http_server=srv, consumer_ip_address=b.str('ip'),
+                       _alternative_hostname=alt)
+        return self.o, [], {}
+
+    def callees(self, ex):
+        def urlparse(ex_, st, args, kwargs):
+            u = st.alloc('ParseResult')
+            sch = fresh(StrS, 'scheme')
+            url = ex_.concrete_kind(st, args[0], ('str',))
+            _scheme_axioms(st, url.e, sch)
+            st.write_field(u, 'scheme', vstr(sch))
+            st.write_field(u, 'port', vany(fresh(Val, 'port'), maybe_none=True))
+            st.write_field(u, 'path', vstr(fresh(StrS, 'path')))
+            return u
+        return {'urllib.parse.urlparse': Pure(urlparse, name='urlparse (scheme axiom)'),
+                f'{CI}:SdcConsumer.path_prefix': Pure(lambda e, s, a, k: vstr(fresh(StrS, 'prefix')), name='path_prefix property')}
+
+    def post(self, ex, st0, st, outcome, b):
+        if outcome[0] == 'exc':
+            ex.oblige(st, 'never_raises', z3.BoolVal(False), info={'exc': repr(outcome[1])})
+            return
+        r = ex.concrete_kind(st, outcome[1], ('str',))
+        ex.oblige(st, 'https_server_gives_https_base_url', z3.Implies(
+            z3.PrefixOf(z3.StringVal('https://'), self.server_url.e), z3.PrefixOf(z3.StringVal('https://'), r.e)))
+        ex.oblige(st, 'base_url_ends_with_a_slash', z3.SuffixOf(z3.StringVal('/'), r.e))
+
+
+@register
+class ConsumerSubscriptionMgrInit(FnCheck):
+    id = 'C19.consumer_subscription_manager_init'
+    prop = 'C19'
+    opaque_ok = True
+    target = f'{CS}:ConsumerSubscriptionManager.__init__'
+    doc = ('ConsumerSubscriptionManager.__init__: _notification_url is the address handed in and, when no separate '
+           'EndTo address is given, _end_to_url is that same address')
+
+    def setup(self, b):
+        self.url = b.str('notification_url')
+        self.o = b.obj('self', cls=(CS, 'ConsumerSubscriptionManager'))
+        return self.o, [b.obj('msg_reader'), b.obj('msg_factory'), b.obj('data_model'), b.obj('get_soap_client_func'), self.url], \
+            {'log_prefix': b.str('log_prefix')}
+
+    def callees(self, ex):
+        return {'*.__init__': Pure(lambda e, s, a, k: NONE, name='Thread.__init__'),
+                'threading.Lock': Pure(lambda e, s, a, k: s.alloc('Lock'), name='threading.Lock'),
+                'sdc11073.loghelper:get_logger_adapter': Pure(lambda e, s, a, k: s.alloc('Logger'), name='get_logger_adapter')}
+
+    def post(self, ex, st0, st, outcome, b):
+        if outcome[0] == 'exc':
+            ex.oblige(st, 'never_raises', z3.BoolVal(False), info={'exc': repr(outcome[1])})
+            return
+        ex.oblige(st, 'notification_url_stored', field(st, self.o, '_notification_url') == Val.str(self.url.e))
+        ex.oblige(st, 'end_to_defaults_to_the_notification_url', z3.Implies(
+            z3.Length(self.url.e) > 0, field(st, self.o, '_end_to_url') == Val.str(self.url.e)))
+
+
+class _MkSubscription(FnCheck):
+    prop = 'C19'
+    opaque_ok = True
+    cvc5_first = True
+    container_hints = {'self.subscriptions': 'dict'}
+
+    def setup(self, b):
+        self.nurl, self.eurl = b.str('notification_url'), b.str('end_to_url')
+        subs = b.obj('subscriptions')
+        b.st.assume(z3.Select(b.st.get_arr('C'), subs.e) == b.ex.ctx.builtin_class_ids['dict'])
+        self.o = b.obj('self', cls=(CS, self.cls_name), _notification_url=self.nurl, _end_to_url=self.eurl,
+                       _counter=b.int('counter'), subscriptions=subs, _subscriptions_lock=b.obj('lock', cls='Lock'),
+                       log_prefix=b.str('log_prefix'))
+        b.st.ghost['made'] = ()
+        return self.o, [b.obj('dpws_hosted'), b.obj('filter_type', text=b.str('filter_text'))], {}
+
+    def callees(self, ex):
+        def mk(ex_, st, args, kwargs):
+            o = st.alloc('ConsumerSubscription')
+            st.ghost['made'] = st.ghost['made'] + ((st.box(args[5]), st.box(args[6])),)
+            return o
+
+        def uuid4(ex_, st, args, kwargs):
+            o = st.alloc('UUID')
+            st.write_field(o, 'urn', vstr(fresh(StrS, 'urn')))
+            return o
+        return {f'{CS}:ConsumerSubscription': Pure(mk, name='ConsumerSubscription(..., notification_url, end_to_url, ...)'),
+                'lxml.etree.Element': Pure(lambda e, s, a, k: s.alloc('Element'), name='etree.Element'),
+                'uuid.uuid4': Pure(uuid4, name='uuid4')}
+
+    def post(self, ex, st0, st, outcome, b):
+        if outcome[0] == 'exc':
+            ex.oblige(st, 'never_raises', z3.BoolVal(False), info={'exc': repr(outcome[1])})
+            return
+        made = st.ghost['made']
+        ex.oblige(st, 'one_subscription_created', z3.BoolVal(len(made) == 1))
+        if len(made) != 1:
+            return
+        n, e = made[0]
+        ex.oblige(st, 'notify_to_extends_the_managers_notification_url', z3.And(
+            Val.is_str(n), z3.PrefixOf(self.nurl.e, Val.s(n))))
+        ex.oblige(st, 'end_to_extends_the_managers_end_to_url', z3.And(
+            Val.is_str(e), z3.PrefixOf(self.eurl.e, Val.s(e))))
+
+
+@register
+class MkSubscriptionPath(_MkSubscription):
+    id = 'C19.consumer_subscription_addresses.path_manager'
+    cls_name = 'ConsumerSubscriptionManager'
+    target = f'{CS}:ConsumerSubscriptionManager.mk_subscription'
+    doc = ('ConsumerSubscriptionManager.mk_subscription: the NotifyTo / EndTo addresses of the new subscription only '
+           'append a path element to the manager\'s addresses (scheme and host are kept)')
+
+
+@register
+class MkSubscriptionRefParam(_MkSubscription):
+    id = 'C19.consumer_subscription_addresses.reference_parameter_manager'
+    cls_name = 'ClientSubscriptionManagerReferenceParams'
+    target = f'{CS}:ClientSubscriptionManagerReferenceParams.mk_subscription'
+    doc = 'ClientSubscriptionManagerReferenceParams.mk_subscription: NotifyTo / EndTo are the manager\'s addresses'
+
+
+@register
+class ConsumerAddressesFrame(ScanCheck):
+    id = 'C19.consumer_addresses_frame'
+    prop = 'C19'
+    doc = ('frame over the consumer subscription code: (1) start_all creates the subscription manager with '
+           'self.base_url as notification address and no separate EndTo address; (2) _notification_url / _end_to_url of '
+           'the managers are assigned only in ConsumerSubscriptionManager.__init__; (3) notification_url / end_to_url '
+           'of ConsumerSubscription are assigned only in its __init__ from the constructor arguments; (4) subscribe() '
+           'writes exactly self.notification_url to NotifyTo.Address and self.end_to_url to EndTo.Address and no other '
+           'Address; (5) no "http://" literal is used to build an address in the consumer modules')
+
+    def scan(self, repo):
+        out = []
+        ci = repo.module(CI)
+        cdef = ci.classes['SdcConsumer']
+        calls = []
+        for fn in [n for n in cdef.body if isinstance(n, ast.FunctionDef)]:
+            for n in ast.walk(fn):
+                if isinstance(n, ast.Call) and ast.unparse(n.func).endswith('subscription_manager_class'):
+                    calls.append((fn.name, n))
+        ok = len(calls) == 1 and calls[0][0] == 'start_all'
+        if ok:
+            c = calls[0][1]
+            kw = {k.arg: k.value for k in c.keywords}
+            notif = c.args[4] if len(c.args) > 4 else kw.get('notification_url')
+            # the notification address is the consumer's base_url (or, equivalently for the scheme, the base_url of its
+            # http server); no separate EndTo address is handed in
+            ok = (notif is not None and ast.unparse(notif) in ('self.base_url', 'self._http_server.base_url')
+                  and len(c.args) <= 5 and not any(isinstance(a, ast.Starred) for a in c.args)
+                  and None not in kw and 'end_to_url' not in kw)
+        out.append(('manager_created_once_with_base_url_and_no_separate_end_to', ok, {}))
+        cs = repo.module(CS)
+        sites = {}
+        for cname, cd in cs.classes.items():
+            for fn in [n for n in cd.body if isinstance(n, ast.FunctionDef)]:
+                for n in ast.walk(fn):
+                    tgts = []
+                    if isinstance(n, ast.Assign):
+                        tgts = n.targets
+                    elif isinstance(n, (ast.AugAssign, ast.AnnAssign)):
+                        tgts = [n.target]
+                    for t in tgts:
+                        for t2 in (t.elts if isinstance(t, (ast.Tuple, ast.List)) else [t]):
+                            if isinstance(t2, ast.Attribute) and t2.attr in ('_notification_url', '_end_to_url', 'notification_url',
+                                                                           'end_to_url', 'Address'):
+                                sites.setdefault(t2.attr, []).append((cname, fn.name, ast.unparse(t2), ast.unparse(n.value) if n.value else ''))
+                    if isinstance(n, ast.Call) and ast.unparse(n.func) == 'setattr':
+                        sites.setdefault('setattr', []).append((cname, fn.name))
+        out.append(('manager_addresses_assigned_only_in_init', sorted(sites.get('_notification_url', []) + sites.get('_end_to_url', [])) == sorted([
+            ('ConsumerSubscriptionManager', '__init__', 'self._notification_url', 'notification_url'),
+            ('ConsumerSubscriptionManager', '__init__', 'self._end_to_url', 'end_to_url or notification_url')]),
+            {'sites': str(sites.get('_notification_url', []) + sites.get('_end_to_url', []))[:300]}))
+        out.append(('subscription_addresses_assigned_only_in_init_from_arguments',
+                    sorted(sites.get('notification_url', []) + sites.get('end_to_url', [])) == sorted([
+                        ('ConsumerSubscription', '__init__', 'self.notification_url', 'notification_url'),
+                        ('ConsumerSubscription', '__init__', 'self.end_to_url', 'end_to_url')]),
+                    {'sites': str(sites.get('notification_url', []) + sites.get('end_to_url', []))[:300]}))
+        out.append(('subscribe_places_exactly_these_addresses', sorted(sites.get('Address', [])) == sorted([
+            ('ConsumerSubscription', 'subscribe', 'subscribe_request.EndTo.Address', 'self.end_to_url'),
+            ('ConsumerSubscription', 'subscribe', 'subscribe_request.Delivery.NotifyTo.Address', 'self.notification_url')]),
+            {'sites': str(sites.get('Address'))[:300]}))
+        out.append(('no_setattr_in_consumer_subscription_module', not sites.get('setattr'), {'sites': str(sites.get('setattr'))}))
+        bad = []
+        for m in (CI, CS):
+            for n in ast.walk(repo.module(m).tree):
+                if isinstance(n, ast.JoinedStr):
+                    for part in n.values:
+                        if isinstance(part, ast.Constant) and isinstance(part.value, str) and 'http://' in part.value:
+                            bad.append((m, n.lineno, part.value))
+                if isinstance(n, ast.Constant) and isinstance(n.value, str) and n.value.startswith('http://') \
+                        and not any(k in n.value for k in ('www.', 'schemas.', 'docs.', 'standards.', '.org')):
+                    bad.append((m, n.lineno, n.value))
+        out.append(('no_hardcoded_plaintext_scheme_in_consumer_urls', not bad, {'found': str(bad)[:200]}))
+        return out
